@@ -56,6 +56,11 @@ type trace struct {
 	steps    int
 	lastObs  string
 	collSeen map[string]time.Time // first time a verification collector (round/seed) was seen running
+	seenSeed map[string]bool
+	seenNb   map[int]int
+	lastCur  int
+	lastLfb  string
+	lastTocs int
 	pend     []*pending
 	hist     []func() // messages sent so far (late re-delivery)
 }
@@ -157,7 +162,8 @@ func (d *drv) newBlockName(t *trace, b *block.Block, r, gen int, seed []int, pre
 func (d *drv) startTrace(id int, r *rand.Rand) *trace {
 	mw, mc := d.mw, d.mc
 	t := &trace{id: id, base: int64(baseStep * id), r: r, blocks: map[string]*blk{}, byHash: map[string]*blk{},
-		seeds: map[int64][]int{}, seedOf: map[string]int64{}, collSeen: map[string]time.Time{}}
+		seeds: map[int64][]int{}, seedOf: map[string]int64{}, collSeen: map[string]time.Time{},
+		seenSeed: map[string]bool{}, seenNb: map[int]int{}}
 	d.t = t
 	t.ctx, t.done = mw.Ctx()
 	// process-level state that a previous trace may have left behind
@@ -389,7 +395,6 @@ func (d *drv) project() rec.M {
 			"fin": int(mr.FinalizeState()), "coll": v.Collecting, "rtk": rtk, "to_verify": v.ToVerify})
 	}
 	blocks := []rec.M{}
-	kf := ""
 	for _, name := range append([]string{}, t.order...) {
 		x := t.blocks[name]
 		b, err := mc.GetBlock(t.ctx, x.hash)
@@ -397,15 +402,6 @@ func (d *drv) project() rec.M {
 			continue
 		}
 		tks, good := d.ticketNames(b)
-		if b.IsBlockNotarized() && good < 3 {
-			// the signature of a finding the lead may list: the block's flag was raised by the forged
-			// previous-block tickets attached to a next-round proposal that was delivered to the node
-			for _, yn := range t.order {
-				if y := t.blocks[yn]; y.pforged && y.sent && y.prev == name {
-					kf = "forged-prev-tickets"
-				}
-			}
-		}
 		blocks = append(blocks, rec.M{"b": name, "st": int(b.GetBlockState()), "tk": tks, "good": good, "notar": b.IsBlockNotarized(),
 			"rank": b.RoundRank, "computed": b.IsStateComputed()})
 	}
@@ -420,7 +416,7 @@ func (d *drv) project() rec.M {
 		lfbChain = append(lfbChain, d.blockName(b))
 	}
 	return rec.M{"ev": "Obs", "cur": d.rel(mc.GetCurrentRound()), "lfb": d.blockName(lfb), "lfb_r": d.rel(lfb.Round), "lfb_chain": lfbChain,
-		"tk": tkr, "rtc": int(mc.GetRoundTimeoutCount()), "rounds": rounds, "blocks": blocks, "univ": univ, "kf": kf}
+		"tk": tkr, "rtc": int(mc.GetRoundTimeoutCount()), "rounds": rounds, "blocks": blocks, "univ": univ}
 }
 
 // ---------------------------------------------------------------- quiescence
@@ -542,7 +538,41 @@ func (d *drv) emit(m rec.M, shape string, nontrivial bool) {
 func (d *drv) obs() {
 	d.settle()
 	p := d.project()
-	d.rc.Emit(p, "obs", false)
+	// what the step did, for the reach statistics of the evidence (never read by the trace specification)
+	t := d.t
+	shape := "rest"
+	cur, lfb := p["cur"].(int), p["lfb"].(string)
+	tocs, restarted, seeded, notarized := 0, false, false, false
+	for _, r := range p["rounds"].([]rec.M) {
+		tocs += r["toc"].(int)
+		q := r["r"].(int)
+		if len(r["seed"].([]int)) > 0 && !t.seenSeed[fmt.Sprint(q, r["seed"])] {
+			t.seenSeed[fmt.Sprint(q, r["seed"])] = true
+			seeded = true
+		}
+		if n := len(r["nb"].([]string)); n > t.seenNb[q] {
+			notarized = true
+			if n > 1 {
+				shape = "second-notarized-block"
+			}
+		}
+		t.seenNb[q] = len(r["nb"].([]string))
+	}
+	restarted = tocs > t.lastTocs
+	switch {
+	case lfb != t.lastLfb && t.lastLfb != "":
+		shape = "finalized"
+	case cur > t.lastCur && t.lastCur > 0:
+		shape = "next-round"
+	case restarted:
+		shape = "restarted"
+	case notarized && shape == "rest":
+		shape = "notarized"
+	case seeded:
+		shape = "seed"
+	}
+	t.lastCur, t.lastLfb, t.lastTocs = cur, lfb, tocs
+	d.rc.Emit(p, shape, false)
 	if d.debug {
 		dbg("obs: %v", p)
 	}
